@@ -53,6 +53,18 @@ def parse_via(module, text, rng, ctx=None, **kw):
     how = 'parse' if r < 0.7 else ('load_path' if r < 0.8 else ('load_gz' if r < 0.9 else 'load_handle'))
     if ctx is not None:
         ctx.count('entry/' + how)
+    # the framing of the text (white space around it) is also a function of the text alone: as written, without the final newline
+    # (a file that ends with its last token), with leading blank lines, or with trailing blank lines and spaces
+    r2 = (zlib.crc32(('frame:' + text).encode()) % 1000) / 1000.0
+    frame = 'as_is' if r2 < 0.6 else ('no_final_newline' if r2 < 0.8 else ('leading_blank' if r2 < 0.9 else 'trailing_blank'))
+    if ctx is not None:
+        ctx.count('frame/' + frame)
+    if frame == 'no_final_newline':
+        text = text.rstrip()
+    elif frame == 'leading_blank':
+        text = '\n  \n' + text
+    elif frame == 'trailing_blank':
+        text = text + '\n   \n\t\n'
     if how == 'parse':
         return module.parse(text, **kw)
     fd, path = tempfile.mkstemp(prefix='vk-in-', suffix='.txt.gz' if how == 'load_gz' else '.txt', dir=os.environ.get('VERIF_TMP') or None)
